@@ -722,3 +722,73 @@ Lemma scores_totals_weighted tl cfg f ks : (forall mm Lt, wf_clear (f mm Lt)) ->
 Proof.
   intros Hw Hin. apply sum_clear_weighted. pose proof (scores_spec_wf tl cfg f Hw) as W. rewrite Forall_forall in W. apply W. exact Hin.
 Qed.
+
+(* ---------- the declarative CLEAR specification at the pipeline level ---------- *)
+(* no two results of the frame share the estimated track (uuid, label), no two share the ground-truth uuid
+   (the matcher pairs every estimate and every ground truth at most once: C01) *)
+Definition pgt_ids (f : pframe) : list nat := flat_map (fun r => match pr_gt r with Some g => [pg_id g] | None => [] end) f.
+Definition pframe_unique (f : pframe) : Prop := NoDup (map (fun r => (pr_est r, pr_elab r)) f) /\ NoDup (pgt_ids f).
+
+Lemma NoDup_map_filter {A B} (g : A -> B) (p : A -> bool) l : NoDup (map g l) -> NoDup (map g (filter p l)).
+Proof.
+  induction l as [|a l IH]; cbn [map filter]; intros H; [constructor|].
+  apply NoDup_cons_iff in H. destruct H as [Ha H]. destruct (p a); [|apply IH; exact H].
+  cbn [map]. constructor; [|apply IH; exact H]. intros Hin. apply Ha. apply in_map_iff in Hin. destruct Hin as (x & E & Hx).
+  apply filter_In in Hx. rewrite <- E. apply in_map. tauto.
+Qed.
+
+Lemma NoDup_app_intro {A} (l1 l2 : list A) : NoDup l1 -> NoDup l2 -> (forall x, In x l1 -> ~ In x l2) -> NoDup (l1 ++ l2).
+Proof.
+  induction l1 as [|a l1 IH]; intros H1 H2 Hd; [exact H2|]. apply NoDup_cons_iff in H1. destruct H1 as [Ha H1].
+  cbn [app]. constructor.
+  - intros Hin. apply in_app_or in Hin. destruct Hin as [Hin|Hin]; [contradiction|]. apply (Hd a); [left; reflexivity|exact Hin].
+  - apply IH; [exact H1|exact H2|]. intros x Hx. apply Hd. right. exact Hx.
+Qed.
+
+Lemma NoDup_app_left {A} (l1 l2 : list A) : NoDup (l1 ++ l2) -> NoDup l1.
+Proof.
+  induction l1 as [|a l1 IH]; cbn [app]; intros H; [constructor|]. apply NoDup_cons_iff in H. destruct H as [Ha H].
+  constructor; [intros Hin; apply Ha; apply in_or_app; left; exact Hin|apply IH; exact H].
+Qed.
+
+Lemma NoDup_flat_map_filter {A B} (g : A -> list B) (p : A -> bool) l : NoDup (flat_map g l) -> NoDup (flat_map g (filter p l)).
+Proof.
+  induction l as [|a l IH]; cbn [flat_map filter]; intros H; [constructor|].
+  pose proof (NoDup_app_left _ _ H) as H1. destruct (NoDup_app_disj _ _ H) as [H2 Hd].
+  destruct (p a); [|apply IH; exact H2]. cbn [flat_map]. apply NoDup_app_intro; [exact H1|apply IH; exact H2|].
+  intros x Hx Hin. apply (Hd x Hx). apply in_flat_map in Hin. destruct Hin as (y & Hy & Hxy). apply in_flat_map. exists y.
+  apply filter_In in Hy. tauto.
+Qed.
+
+Lemma flat_map_map {A B C} (v : A -> B) (h : B -> list C) l : flat_map h (map v l) = flat_map (fun x => h (v x)) l.
+Proof. induction l as [|a l IH]; [reflexivity|]. cbn [map flat_map]. rewrite IH. reflexivity. Qed.
+
+Lemma bucket_view_unique mm bl L f : pframe_unique f -> frame_unique (map (view mm) (bucket bl L f)).
+Proof.
+  intros [He Hg]. unfold frame_unique, bucket. split.
+  - rewrite map_map. apply (NoDup_map_filter (fun r => est_key (view mm r))). exact He.
+  - unfold gt_ids. rewrite flat_map_map.
+    assert (E : forall l, flat_map (fun x => match r_gt (view mm x) with Some g => [g_id g] | None => [] end) l = pgt_ids l).
+    { intros l. unfold pgt_ids. apply flat_map_ext. intros r. unfold view. cbn. destruct (pr_gt r); reflexivity. }
+    rewrite E. unfold pgt_ids. apply NoDup_flat_map_filter. exact Hg.
+Qed.
+
+(* under per-frame uniqueness the frame-level and the scene-level counters of every label are the declarative
+   TP / FP / switch / score counts of C05_clear_refines_spec on the label's buckets *)
+Theorem frame_clear_refines_spec mm Lt prev cur :
+  pframe_unique (prev_res prev) -> pframe_unique (f_res cur) ->
+  counters_eq (k_cnt (frame_clear mm Lt prev cur))
+              (spec_counts (mode_of mm) [Lt] (frame_history (f_bl cur) mm (fst Lt) prev cur)).
+Proof.
+  intros Hp Hc. unfold frame_clear, make_clear. cbn [k_cnt]. apply clear_refines_spec_unique.
+  unfold frame_history. intros f [<-|[<-|[]]]; apply bucket_view_unique; assumption.
+Qed.
+
+Theorem scene_clear_refines_spec tl mm Lt frames :
+  (forall fr, In fr frames -> pframe_unique (f_res fr)) ->
+  counters_eq (k_cnt (scene_clear tl mm Lt frames)) (spec_counts (mode_of mm) [Lt] (scene_history tl mm (fst Lt) frames)).
+Proof.
+  intros Hu. unfold scene_clear, make_clear. cbn [k_cnt]. apply clear_refines_spec_unique.
+  unfold scene_history. intros f [<-|Hf]; [split; constructor|].
+  apply in_map_iff in Hf. destruct Hf as (fr & <- & Hfr). apply bucket_view_unique. apply Hu. exact Hfr.
+Qed.
